@@ -1,6 +1,6 @@
 (* Proofs/QueriesFacts.v — the query helpers of graph_utils.py agree with the tables (C02). *)
 From Coq Require Import List ZArith Bool Arith Lia ZifyBool Permutation Sorted.
-From Koala Require Import Model.Lattice Model.Queries Proofs.SortFacts Proofs.PlaqTablesFacts.
+From Koala Require Import Model.Lattice Model.TableSpec Model.Queries Proofs.SortFacts Proofs.PlaqTablesFacts.
 Import ListNotations.
 Open Scope Z_scope.
 
@@ -63,8 +63,8 @@ Proof.
   destruct (edge_at L e) as [j k]. simpl in *.
   destruct (Nat.eqb_spec k v) as [Ek|Ek], (Nat.eqb_spec j v) as [Ej|Ej]; simpl; subst.
   - contradiction.
-  - unfold vadd, vsub, vscale, vneg. simpl. f_equal; ring.
-  - unfold vadd, vsub, vscale. simpl. f_equal; ring.
+  - unfold vadd, vsub, vscale, vneg. cbn [fst snd]. f_equal; ring.
+  - unfold vadd, vsub, vscale. cbn [fst snd]. f_equal; ring.
   - destruct Hinc; contradiction.
 Qed.
 
